@@ -288,10 +288,14 @@ pub fn gen_hist(o: &Opts, r: &mut Rng, k: u64, tier: &str) -> Vec<String> {
         if roll == 0 && o.force_rot && rot.is_some() && !is_async {
             let fl = if o.faults && r.chance(1, 4) { r.pick(&fault_kinds).to_string() } else { "-".into() };
             c.push(format!("ROT {} {fl}", tick(&mut clock, r)));
-        } else if roll == 1 && !is_async {
+        } else if roll == 1 {
+            // (async: the flush is a message in the channel, nothing can be observed right after it —
+            //  but it must not disturb the records around it)
             c.push("FLUSH".into());
-            c.push("READ".into());
-            c.push("PARTS".into());
+            if !is_async {
+                c.push("READ".into());
+                c.push("PARTS".into());
+            }
         } else if roll == 2 && restarts_left > 0 && i > 0 {
             restarts_left -= 1;
             c.push("SHUT".into());
@@ -647,7 +651,7 @@ fn gen_c15_chunks(tier: &str, seed: u64) -> Vec<Vec<String>> {
             // (known finding C15-async-control-chunks, directed corpus case)
             let chunk = if is_async && (chunk == b"F" || chunk == b"S") { vec![b'f'] } else { chunk };
             c.push(format!("WRAW {} {now} -", hex(&chunk)));
-            if !is_async && r.chance(1, 6) { c.push("FLUSH".into()); c.push("READ".into()); }
+            if r.chance(1, 6) { c.push("FLUSH".into()); if !is_async { c.push("READ".into()); } }
             let _ = i;
         }
         c.push("SHUT".into());
@@ -698,7 +702,58 @@ fn gen_c18_same_spec_reset(tier: &str, seed: u64) -> Vec<Vec<String>> {
 pub fn gen_c18(tier: &str, seed: u64) -> Vec<Vec<String>> {
     let mut v = gen_c18_same_spec_reset(tier, seed);
     v.extend(gen_c18_main(tier, seed));
+    v.extend(gen_c18_via_logger(tier, seed));
     v
+}
+
+/// C18 through the public entry point: `LoggerHandle::reopen_output()` (and `trigger_rotation()`)
+/// of a logger that writes to a file, or to a file AND a second writer (`log_to_file_and_writer`:
+/// the fan-out layer has its own arm for "both"), with and without rotation; the current file is
+/// renamed or removed from outside, sometimes with records in between
+fn gen_c18_via_logger(tier: &str, seed: u64) -> Vec<Vec<String>> {
+    let mut root = Rng::new(seed ^ 0xC18E);
+    let mut cases = Vec::new();
+    for k in 0..n_cases(tier, 120, 2000) {
+        let mut r = root.fork();
+        let mut c = vec![format!("CASE flw C18 l{k}")];
+        let naming = *r.pick(&NAMINGS);
+        let (spec, has_suffix) = gen_spec(&mut r, naming);
+        c.push(spec);
+        c.push(if r.chance(1, 2) { "VIA filewriter".to_string() } else { "VIA logger".to_string() });
+        let n: u64 = *r.pick(&[5, 40, 300]);
+        let rot = if r.chance(1, 2) { None } else { Some(format!("{n};_;{naming};never")) };
+        let cap: Option<u64> = if r.chance(1, 3) { Some(*r.pick(&[16u64, 100, 8192])) } else { None };
+        c.push(format!("MODE {}", cap.map_or("direct".to_string(), |cc| format!("buf:{cc}"))));
+        c.push(format!("CFG {}", cfg_line(&rot, false, cap, false, has_suffix)));
+        let mut clock = Clock::new(&mut r);
+        let mut seq = 0;
+        let mut lw = |c: &mut Vec<String>, r: &mut Rng, clock: &mut Clock| { clock.epoch += 1; c.push(format!("LW {} {}", hex(&record(seq, r.range(2, 30))), clock.tick(r))); seq += 1; };
+        lw(&mut c, &mut r, &mut clock);
+        for _ in 0..r.range(3, 14) {
+            match r.below(8) {
+                0 | 1 => {
+                    c.push(if r.chance(3, 4) { "EXTREN".to_string() } else { "EXTRM".to_string() });
+                    if r.chance(1, 4) { lw(&mut c, &mut r, &mut clock); }
+                    clock.epoch += 1;
+                    c.push(format!("LREOPEN {}", clock.tick(&mut r)));
+                    lw(&mut c, &mut r, &mut clock);
+                    c.push("LFLUSH".into());
+                    c.push("READ".into());
+                }
+                2 => { clock.epoch += 1; c.push(format!("LREOPEN {}", clock.tick(&mut r))); }
+                3 if rot.is_some() => { clock.epoch += 1; c.push(format!("LROT {}", clock.tick(&mut r))); }
+                4 => { c.push("LFLUSH".into()); c.push("READ".into()); c.push("PARTS".into()); }
+                _ => lw(&mut c, &mut r, &mut clock),
+            }
+        }
+        c.push("LSHUT".into());
+        c.push("READ".into());
+        c.push("PARTS".into());
+        c.push("SNAP".into());
+        c.push("END".into());
+        cases.push(c);
+    }
+    cases
 }
 fn gen_c18_main(tier: &str, seed: u64) -> Vec<Vec<String>> {
     gen_with(Opts { prop: "C18", size: true, age: false, force_rot: true, restarts: 0, cleanup: false, faults: false, ext: true, modes: false, max_ops: 40, namings: ALL, foreign: false, exist: false, bg: 0 }, tier, seed, 500, 6000)
@@ -896,6 +951,45 @@ pub fn gen_c11(tier: &str, seed: u64) -> Vec<Vec<String>> {
                 }
             }
         }
+    }
+    // (4) SIGKILL from outside at an arbitrary instant: the child announces a burst of writes, the
+    //     parent kills it `delay` microseconds later. The directory found must be one the model
+    //     passes through during the write in flight (`KW …` is rewritten into `KOBS …`, see the
+    //     driver), every acknowledged record must be there, and a new logger carries on.
+    let mut root4 = Rng::new(seed ^ 0xC11A);
+    for j in 0..n_cases(tier, 60, 1500) {
+        let mut r = root4.fork();
+        let naming = NAMINGS[(j % 4) as usize];
+        let (spec, has_suffix) = gen_spec(&mut r, naming);
+        let n: u64 = *r.pick(&[0, 5, 16, 40]);
+        let cleanup = match j % 3 { 0 => "never".to_string(), 1 => "1,1".to_string(), _ => format!("{},{}", r.below(3), r.below(2)) };
+        let cleanup = if !has_suffix && cleanup != "never" { "1,0".to_string() } else { cleanup };
+        let cleanup = if cleanup == "0,0" { "never".to_string() } else { cleanup };
+        let rot = Some(format!("{n};_;{naming};{cleanup}"));
+        let mut c = vec![format!("CASE flw C11 k{j}"), spec, format!("CFG {}", cfg_line(&rot, false, None, false, has_suffix))];
+        let mut clock = Clock::new(&mut r);
+        let mut seq = 0;
+        for _ in 0..r.below(4) {
+            c.push(format!("W {} {} -", hex(&record(seq, r.range(1, 24))), clock.tick(&mut r)));
+            seq += 1;
+        }
+        let vnow = clock.tick(&mut r);
+        let burst: Vec<String> = (0..r.range(20, 120)).map(|_| { let x = hex(&record(seq, r.range(1, 24))); seq += 1; x }).collect();
+        let delay = match r.below(3) { 0 => r.below(300), 1 => r.below(1500), _ => r.below(6000) };
+        c.push(format!("KW {} {vnow} {delay}", burst.join(",")));
+        c.push("SNAP".into());
+        let append = r.chance(1, 2);
+        let mut cl2 = Clock { epoch: clock.epoch + *r.pick(&[0i64, 1, 70]), small: false };
+        c.push(format!("RESTART {}", cfg_line(&rot, append, None, false, has_suffix)));
+        for _ in 0..r.range(1, 5) {
+            c.push(format!("W {} {} -", hex(&record(seq, r.range(1, 24))), cl2.tick(&mut r)));
+            seq += 1;
+        }
+        c.push("ERRS".into());
+        c.push("READ".into());
+        c.push("SNAP".into());
+        c.push("END".into());
+        cases.push(c);
     }
     cases
 }
